@@ -133,6 +133,38 @@ static void hook_free(void *p)
     free(p);
 }
 
+/* "slab 1": the threads' text buffers are adjacent slices of ONE block (a caller that cuts a large read buffer into records and
+ * hands one record to each worker).  A thread's text is placed flush against the END of its slice and the thread uses the first
+ * byte of its own slice as a scratch cell; the byte behind a slice is therefore a byte that the next thread writes.  Reading at or
+ * behind buffer + length is an access to memory the thread does not own. */
+#define SLICE 8192
+static unsigned char *slab = NULL;
+
+static char *text_buffer(const prog_t *p, const op_t *o, int terminated, int *from_slab)
+{
+    size_t need = o->slen + (terminated ? 1 : 0);
+    char *copy;
+    if (slab != NULL && need + 1 < SLICE && need > 0)
+    {
+        unsigned char *slice = slab + (size_t)p->id * SLICE;
+        copy = (char *)(slice + SLICE - need);
+        slice[0] = (unsigned char)(o->slen & 0x7F);
+        *from_slab = 1;
+    }
+    else
+    {
+        copy = (char *)malloc(o->slen + 1);
+        *from_slab = 0;
+        terminated = 1;
+    }
+    memcpy(copy, o->s, o->slen);
+    if (terminated)
+    {
+        copy[o->slen] = 0;
+    }
+    return copy;
+}
+
 static void state_init(pstate_t *st, long failat)
 {
     memset(st->slot, 0, sizeof(st->slot));
@@ -164,9 +196,9 @@ static int step_program(const prog_t *p, pstate_t *st)
             {
                 const char *end = NULL;
                 cJSON *t;
-                char *copy = (char *)malloc(o->slen + 1);
-                memcpy(copy, o->s, o->slen);
-                copy[o->slen] = 0;
+                int from_slab = 0;
+                /* (the length-delimited entry point without the terminator in its length needs no terminator at all) */
+                char *copy = text_buffer(p, o, (o->b & 1) || (o->b & 2), &from_slab);
                 if (o->b & 1)
                 {
                     t = cJSON_ParseWithOpts(copy, &end, (int)o->c);
@@ -179,7 +211,10 @@ static int step_program(const prog_t *p, pstate_t *st)
                 h = fold_int(h, end ? (long)(end - copy) : -1);
                 cJSON_Delete(slot[a]);
                 slot[a] = t;
-                free(copy);
+                if (!from_slab)
+                {
+                    free(copy);
+                }
                 break;
             }
             case 'R':
@@ -229,12 +264,14 @@ static int step_program(const prog_t *p, pstate_t *st)
                 break;
             case 'M':
             {
-                char *copy = (char *)malloc(o->slen + 1);
-                memcpy(copy, o->s, o->slen);
-                copy[o->slen] = 0;
+                int from_slab = 0;
+                char *copy = text_buffer(p, o, 1, &from_slab);
                 cJSON_Minify(copy);
                 h = fold_str(h, copy);
-                free(copy);
+                if (!from_slab)
+                {
+                    free(copy);
+                }
                 break;
             }
             case 'E':
@@ -606,6 +643,18 @@ int main(int argc, char **argv)
             continue;
         }
         {
+            int sl = 0;
+            if (sscanf(line, "slab %d", &sl) == 1)
+            {
+                if (sl && slab == NULL)
+                {
+                    slab = (unsigned char *)calloc(MAX_THREADS + 1, SLICE);
+                }
+                free(hex);
+                continue;
+            }
+        }
+        {
             int ft;
             long fk;
             if (sscanf(line, "failat %d %ld", &ft, &fk) == 2)
@@ -710,6 +759,10 @@ int main(int argc, char **argv)
     {
         uint64_t conc[8][MAX_THREADS];
         int total_rounds = rounds > 8 ? 8 : rounds;
+        for (i = 0; i < nthreads; i++)
+        {
+            progs[i].id = i;
+        }
         for (r = 0; r < total_rounds; r++)
         {
             pthread_t th[MAX_THREADS];
